@@ -243,7 +243,11 @@ impl<'a, Input: InputIndexer> MatchAttempter<'a, Input> {
     ) -> Option<(Input::Position, Input::Position)> {
         match re.insns.iat(ip + 1) {
             &Insn::Char(c) => {
-                let c = <<Input as InputIndexer>::Element as ElementType>::try_from(c)?;
+                // A character the input encoding cannot represent never matches: the loop
+                // runs zero iterations, which is a success exactly if min is 0.
+                let Some(c) = <<Input as InputIndexer>::Element as ElementType>::try_from(c) else {
+                    return if min == 0 { Some((pos, pos)) } else { None };
+                };
                 Self::run_scm_loop_impl(input, pos, min, max, dir, scm::Char { c })
             }
             &Insn::Bracket(idx) => {
@@ -316,7 +320,10 @@ impl<'a, Input: InputIndexer> MatchAttempter<'a, Input> {
     ) -> Option<Input::Position> {
         let result = match re.insns.iat(ip + 1) {
             &Insn::Char(c) => {
-                let c = <<Input as InputIndexer>::Element as ElementType>::try_from(c)?;
+                // An unrepresentable character never matches: the maximum is where we are.
+                let Some(c) = <<Input as InputIndexer>::Element as ElementType>::try_from(c) else {
+                    return Some(pos);
+                };
                 Self::compute_max_pos(input, pos, limit, dir, scm::Char { c })
             }
             &Insn::Bracket(idx) => {
